@@ -52,7 +52,7 @@ def work(case):
         if rng.random() < 0.4:
             x = editgen.gen_cross_ins_edit(rng, r1["out_doc"], t2)
             e2 += [e for e in x if not any(e["pi"] == y.get("pi") for y in e2)]
-        outs["round2"] = dict(engine_run.run_edits(r1["out_bytes"], e2, author="Second Author"), base=r1["out_doc"], author="Second Author")
+        outs["round2"] = dict(engine_run.run_edits(r1["out_bytes"], e2, author="Q8"), base=r1["out_doc"], author="Q8")
     # (the Lean engine model covers edits on text that is not part of a pending insertion)
     ix = [dict(e, index=texts["raw"].find(e["target"])) for e in edits
           if e.get("locatable") and e.get("in_raw") and e.get("state", "plain") == "plain"]
